@@ -22,6 +22,10 @@ const (
 	BadgerMem     = "badger-mem"
 	BadgerDisk    = "badger-disk"    // on disk, small files
 	BadgerDefault = "badger-default" // on disk, shipped default options
+	// small transaction budget (4 MiB memtable: about 0.6 MiB / 6000 entries per transaction), so
+	// that "operation does not fit one badger transaction" is reachable with a 2000-document batch
+	BadgerDiskSmall = "badger-disk-small"
+	BadgerMemSmall  = "badger-mem-small"
 )
 
 // ScratchRoot is where scratch databases live (tmpfs when available).
@@ -55,6 +59,13 @@ func OpenStore(backend, dir string) (store.Store, error) {
 			WithBlockCacheSize(1 << 20).WithIndexCacheSize(1 << 20))
 	case BadgerDefault:
 		return badgerstore.OpenWithOptions(badger.DefaultOptions(dir).WithLoggingLevel(badger.ERROR))
+	case BadgerDiskSmall:
+		return badgerstore.OpenWithOptions(badger.DefaultOptions(dir).WithLoggingLevel(badger.ERROR).
+			WithValueLogFileSize(4 << 20).WithMemTableSize(4 << 20).WithValueThreshold(32 << 10).WithNumCompactors(2).WithNumMemtables(2).
+			WithBlockCacheSize(1 << 20).WithIndexCacheSize(1 << 20))
+	case BadgerMemSmall:
+		return badgerstore.OpenWithOptions(badger.DefaultOptions("").WithInMemory(true).WithLoggingLevel(badger.ERROR).
+			WithMemTableSize(4 << 20).WithValueThreshold(32 << 10).WithNumCompactors(2).WithNumMemtables(2))
 	}
 	return nil, fmt.Errorf("unknown backend %q", backend)
 }
@@ -320,4 +331,4 @@ func (h *Handle) Reopen() error {
 	return nil
 }
 
-func OnDisk(backend string) bool { return backend != BadgerMem }
+func OnDisk(backend string) bool { return backend != BadgerMem && backend != BadgerMemSmall }
